@@ -1,6 +1,6 @@
 (* Properties_C11.v — obligations of property C11 (ECC and country follow group 1A variant 0 and
    the IEC 62106-4 table). *)
-Require Import ObsRun Lemmas_Ecc Lemmas_TabEcc.
+Require Import ObsRun Lemmas_Ecc Lemmas_TabEcc Lemmas_Leaf.
 Local Open Scope Z_scope.
 
 (* The table measured on the compiled library (complete graph over 16 PI nibbles x 256 ECC values;
@@ -30,6 +30,12 @@ Proof.
   replace (used s) with (b_used (b_hist lut_g h)) by (rewrite <- Hb; reflexivity). exact Hc.
 Qed.
 Print Assumptions C11_country_always_valid.
+
+(* THE CODE ITSELF: variant and ECC extractors of group 1A, translated from clang's typed AST on every run *)
+Theorem C11_code_ecc : forall d0 d1 d2 d3, 0 <= d2 < 65536 ->
+  c_get_variant d0 d1 d2 d3 = get_variant d2 /\ c_get_ecc d0 d1 d2 d3 = get_ecc d2.
+Proof. intros d0 d1 d2 d3 H. split; [apply leaf_get_variant|apply leaf_get_ecc]; exact H. Qed.
+Print Assumptions C11_code_ecc.
 
 Example C11_scenario : check_run_u (observer_u 11) scenario = true.
 Proof. vm_compute. reflexivity. Qed.
